@@ -271,17 +271,56 @@ def rule_TUPLE(ctx):
            'a range whose upper bound does not exceed the lower one is rejected' if order_ok else
            'the bounds of a range are not compared: (1, 0) and (2, 2) are accepted and every '
            'value of that parameter is NaN')
-    # output buffer of unit_to_physical
+    # output buffer of unit_to_physical: every definition of the returned array
     g = ctx.program.func('Prior.unit_to_physical')
     pts = [p for p in g.params if p != g.self_name][0]
+    rets = {r.value.id for r in walk_no_nested(g.node) if isinstance(r, ast.Return) and
+            isinstance(r.value, ast.Name)}
+    ctx.require(rets, 'Prior.unit_to_physical: returned array not found')
+    FLOATS = ('float', 'np.float64', 'np.double', 'np.float_', "'float64'", "'f8'", "'d'")
+
+    def float_dtype(e):
+        t = unparse(e)
+        if t in FLOATS:
+            return True
+        return isinstance(e, ast.Call) and dotted(e.func) in ('np.result_type', 'np.promote_types') \
+            and any(unparse(x) in FLOATS for x in e.args)
+
+    def classify(v):
+        """'float' / 'inherit' / None (unknown) for the right-hand side defining the buffer."""
+        if not isinstance(v, ast.Call):
+            return None
+        fn = dotted(v.func) or ''
+        dt = [k.value for k in v.keywords if k.arg == 'dtype']
+        if fn in ('np.zeros_like', 'np.empty_like', 'np.ones_like', 'np.full_like', 'np.copy',
+                  'np.array', 'np.asarray') and v.args and \
+                isinstance(v.args[0], ast.Name) and v.args[0].id == pts:
+            if fn in ('np.array', 'np.asarray') and len(v.args) > 1:
+                dt = dt + [v.args[1]]
+            if not dt:
+                return 'inherit'
+            return 'float' if all(float_dtype(d) for d in dt) else None
+        if fn in ('np.zeros', 'np.empty', 'np.ones', 'np.full'):
+            if not dt:
+                return 'float' if fn != 'np.full' else None
+            if all(float_dtype(d) for d in dt):
+                return 'float'
+            if all(unparse(d) == '%s.dtype' % pts for d in dt):
+                return 'inherit'
+            return None
+        if fn == '%s.astype' % pts and v.args:
+            return 'float' if float_dtype(v.args[0]) else None
+        if fn == '%s.copy' % pts:
+            return 'inherit'
+        return None
     bufs = [st for st in walk_no_nested(g.node) if isinstance(st, ast.Assign) and
-            isinstance(st.value, ast.Call) and
-            dotted(st.value.func) in ('np.zeros_like', 'np.empty_like', 'np.ones_like',
-                                      'np.copy', 'np.array') and st.value.args and
-            isinstance(st.value.args[0], ast.Name) and st.value.args[0].id == pts]
+            any(isinstance(t, ast.Name) and t.id in rets for t in st.targets)]
+    ctx.require(bufs, 'Prior.unit_to_physical: definition of the returned array not found')
     for st in bufs:
-        typed = any(k.arg == 'dtype' and unparse(k.value) in ('float', 'np.float64', 'np.double')
-                    for k in st.value.keywords)
+        kind = classify(st.value)
+        ctx.require(kind is not None, 'D4 not decided: dtype of `%s` in Prior.unit_to_physical'
+                    % unparse(st)[:60])
+        typed = kind == 'float'
         ctx.ob(rid, 'Prior.unit_to_physical:floating-point-output', typed, g.where(st),
                'the output array is float64 whatever the dtype of the input' if typed else
                '`%s` inherits the dtype of the input: for an integer array of unit-cube corners '
